@@ -37,7 +37,7 @@ func ExploreE3(p *pool.Pool, spec E3Spec, rep *Report, deadline time.Time) E3Sta
 	st := E3Stats{Distinct: map[string]bool{}, Exhaustive: true}
 	// 1. representative prefixes by state-merged BFS (no oracles)
 	silent := &Report{Prop: "none", Findings: map[string]*Finding{}, Coverage: map[string]interface{}{}}
-	e1 := ExploreE1(p, E1Spec{Name: spec.Name + "/prefixes", Cfg: spec.Cfg, Alphabet: spec.Alphabet, Depth: spec.Depth - 1, Level: "raw"}, silent, deadline)
+	e1 := ExploreE1(p, E1Spec{Name: spec.Name + "/prefixes", Cfg: spec.Cfg, Alphabet: spec.Alphabet, Depth: spec.Depth - 1, Level: "raw", NoWalk: true}, silent, deadline)
 	st.Harness = append(st.Harness, e1.Harness...)
 	if !e1.Exhaustive {
 		st.Exhaustive = false
